@@ -31,9 +31,25 @@ func (a eeAddr) String() string  { return string(a) }
 type eeConn struct {
 	addr    eeAddr
 	written [][]byte
+	in      []byte // bytes the peer has sent and the accessory has not read yet
 }
 
-func (c *eeConn) Read(b []byte) (int, error)         { return 0, nil }
+type eeTimeout struct{}
+
+func (eeTimeout) Error() string   { return "i/o timeout" }
+func (eeTimeout) Timeout() bool   { return true }
+func (eeTimeout) Temporary() bool { return true }
+
+// Read delivers what the peer sent; when nothing is pending the read times out (the peer
+// stays connected).
+func (c *eeConn) Read(b []byte) (int, error) {
+	if len(c.in) == 0 {
+		return 0, eeTimeout{}
+	}
+	n := copy(b, c.in)
+	c.in = c.in[n:]
+	return n, nil
+}
 func (c *eeConn) Write(b []byte) (int, error)        { c.written = append(c.written, append([]byte{}, b...)); return len(b), nil }
 func (c *eeConn) Close() error                       { return nil }
 func (c *eeConn) LocalAddr() net.Addr                { return eeAddr("127.0.0.1:1") }
@@ -139,6 +155,7 @@ type eeWorld struct {
 	emitted []interface{}
 	accPub  ed25519.PublicKey
 	accPriv ed25519.PrivateKey
+	lastConn *hap.Connection
 }
 
 func (w *eeWorld) Handle(ev interface{}) { w.emitted = append(w.emitted, ev) }
@@ -163,7 +180,7 @@ func eeNewWorld() *eeWorld {
 
 func (w *eeWorld) connect(addr string) (*eeConn, hap.Session) {
 	c := &eeConn{addr: eeAddr(addr)}
-	hap.NewConnection(c, w.ctx)
+	w.lastConn = hap.NewConnection(c, w.ctx)
 	return c, w.ctx.GetSessionForConnection(c)
 }
 
